@@ -164,3 +164,50 @@ pub fn c15_sched(args: &[String], _seed: u64) -> Vec<String> {
     } } }
     vec![format!("{{\"oracle\":\"c15_sched\",\"status\":\"pass\",\"evaluations\":{cnt}}}")]
 }
+
+// ---------------------------------------------------------------------------------------------------------
+// C01 timing helpers: synchronisation pause boundary, slot expiry, time-out staggering (all baud rates)
+pub fn c01_timing(args: &[String], seed: u64) -> Vec<String> {
+    std::panic::set_hook(Box::new(|_| {}));
+    let bauds = [crate::Baudrate::B9600, crate::Baudrate::B19200, crate::Baudrate::B31250, crate::Baudrate::B45450, crate::Baudrate::B93750, crate::Baudrate::B187500,
+        crate::Baudrate::B500000, crate::Baudrate::B1500000, crate::Baudrate::B3000000, crate::Baudrate::B6000000, crate::Baudrate::B12000000];
+    let rates = [9600u64, 19200, 31250, 45450, 93750, 187500, 500000, 1500000, 3000000, 6000000, 12000000];
+    let case = |bi: usize, slot_bits: u16, ts: u8, lba: i64, dt: i64| -> Result<(), String> {
+        let mut p = crate::fdl::Parameters::default();
+        p.baudrate = bauds[bi]; p.slot_bits = slot_bits; p.address = ts;
+        let us = |bits: u64| bits * 1_000_000 / rates[bi];
+        if p.bits_to_time(33).total_micros() != us(33) { return Err(format!("bits_to_time(33) = {}", p.bits_to_time(33).total_micros())); }
+        let want_to = us(u64::from(slot_bits) * (6 + 2 * u64::from(ts)));
+        if p.token_lost_timeout().total_micros() != want_to { return Err(format!("token_lost_timeout {} != {want_to}", p.token_lost_timeout().total_micros())); }
+        let mut f = FdlActiveStation::new(p);
+        f.last_bus_activity = Some(crate::time::Instant::from_micros(lba));
+        let now = crate::time::Instant::from_micros(lba + dt);
+        let may_send = f.wait_synchronization_pause(now).is_none();
+        if may_send != (dt > us(33) as i64) { return Err(format!("sync pause: {dt} us after activity, T33 = {} us, may_send = {may_send}", us(33))); }
+        let expired = f.check_slot_expired(now);
+        if expired != (dt > us(u64::from(slot_bits)) as i64) { return Err(format!("slot expiry: {dt} us after activity, Tsl = {} us, expired = {expired}", us(u64::from(slot_bits)))); }
+        let _ = f.mark_tx(now, 17);
+        if f.last_bus_activity != Some(now + crate::time::Duration::from_micros(us(11 * 17))) { return Err("mark_tx prediction".into()); }
+        Ok(())
+    };
+    if args.len() == 5 {
+        let v: Vec<i64> = args.iter().map(|s| s.parse().unwrap()).collect();
+        let r = match std::panic::catch_unwind(|| case(v[0] as usize, v[1] as u16, v[2] as u8, v[3], v[4])) { Ok(r) => r, Err(_) => Err("panic".into()) };
+        return vec![format!("{{\"oracle\":\"c01_timing\",\"status\":\"{}\",\"input\":[{},{},{},{},{}],\"observed\":\"{}\"}}", if r.is_ok() { "pass" } else { "fail" }, v[0], v[1], v[2], v[3], v[4], r.err().unwrap_or_default().replace('"', "'"))];
+    }
+    let mut s = seed | 1;
+    let mut lcg = move || { s = s.wrapping_mul(6364136223846793005).wrapping_add(1442695040888963407); s >> 33 };
+    let mut n = 0u64;
+    for bi in 0..11 { for slot_bits in [100u16, 101, 300, 1000, 4095, 65535] { for ts in [0u8, 1, 7, 125] {
+        let t33 = (33u64 * 1_000_000 / rates[bi]) as i64;
+        let tsl = (u64::from(slot_bits) * 1_000_000 / rates[bi]) as i64;
+        for dt in [0i64, 1, t33 - 1, t33, t33 + 1, tsl - 1, tsl, tsl + 1, (lcg() % 100000) as i64] {
+            if dt < 0 { continue; }
+            n += 1;
+            let lba = (lcg() % 1_000_000_000) as i64;
+            let r = match std::panic::catch_unwind(|| case(bi, slot_bits, ts, lba, dt)) { Ok(r) => r, Err(_) => Err("panic".into()) };
+            if let Err(e) = r { return vec![format!("{{\"oracle\":\"c01_timing\",\"status\":\"fail\",\"input\":[{bi},{slot_bits},{ts},{lba},{dt}],\"observed\":\"{}\",\"evaluations\":{n}}}", e.replace('"', "'"))]; }
+        }
+    } } }
+    vec![format!("{{\"oracle\":\"c01_timing\",\"status\":\"pass\",\"evaluations\":{n}}}")]
+}
